@@ -1617,3 +1617,15 @@ package ring
 
 //@ unrolled inttConjugateInvariantLazyUnrolled16
 //@   property C01
+
+// ---- NewPoly (properties C09 / C08): every row is its own allocation of exactly N coefficients
+// ---- (capacity N: a reader that re-slices a reused row cannot run into the next row).  Bounded
+// ---- instance: at most three rows.
+//@ afunc NewPoly#rows
+//@   property C09
+//@   unwind 4
+//@   requires 0 <= Level && Level <= 2 && 0 <= N
+//@   ensures len(pol.Coeffs) == Level + 1
+//@   ensures len(pol.Coeffs[0]) == N && cap(pol.Coeffs[0]) == N
+//@   ensures implies(Level >= 1, len(pol.Coeffs[1]) == N && cap(pol.Coeffs[1]) == N && !samearray(pol.Coeffs[0], pol.Coeffs[1]))
+//@   ensures implies(Level >= 2, len(pol.Coeffs[2]) == N && cap(pol.Coeffs[2]) == N && !samearray(pol.Coeffs[1], pol.Coeffs[2]) && !samearray(pol.Coeffs[0], pol.Coeffs[2]))
